@@ -54,6 +54,7 @@ def make_url(kind, rng, stamp, spec=None):
         elif kind == 'jsessionid':
             spec = (rng.choice(['https://www.ncdc.noaa.gov/homr/api', '/app/page.do', 'http://h.test/a/b',
                                 # the session id may follow a query string or sit inside a fragment
+                                '', '?page=2', '#top',        # the parameter may begin the URL (a link to "this page" with a session)
                                 'http://h.test/search.do?q=climate', '/chart?station=44&y=2', 'http://h.test/app#/results', '/p?x=1#sec',
                                 'http://web.archive.org/web/20100101000000/http://h.test/servlet',
                                 'https://www.webarchive.org.uk/wayback/en/archive/20100101000000mp_/http://h.test/s']), rng.choice(['', ';k=v', ';k=v;j=w', ';jsessionid=KEPT2', ';k=v;jsessionid=KEPT3;z']), None)
